@@ -103,6 +103,9 @@ func main() {
 				out[i] = "SKIPPED-AFTER-TIMEOUT"
 				continue
 			}
+			if p := os.Getenv("RUN_PROGRESS"); p != "" {
+				os.WriteFile(p, []byte(fmt.Sprintf("%d\n", i)), 0o644)
+			}
 			out[i] = safeRun(s.run, c)
 		}
 		writeLines(os.Args[4], out)
